@@ -40,6 +40,40 @@ func VH_C16_pco_roundtrip() {
 	}
 }
 
+// containers with contents of every length 0..255 (symbolic length, contents an arbitrary function of the position):
+// the length octet's whole range, including the 255 boundary, round-trips
+func VH_C16_pco_symlen() {
+	n := vrt.Choose("units", 1, 2)
+	pco := NewProtocolConfigurationOptions()
+	for i := 0; i < n; i++ {
+		u := NewProtocolOrContainerUnit()
+		u.ProtocolOrContainerID = vrt.U16(fmt.Sprintf("id%d", i))
+		u.Contents = vrt.BytesSym(fmt.Sprintf("c%d", i), 255)
+		u.LengthOfContents = uint8(len(u.Contents))
+		pco.ProtocolOrContainerList = append(pco.ProtocolOrContainerList, u)
+	}
+	out := pco.Marshal()
+	total := 1
+	for _, u := range pco.ProtocolOrContainerList {
+		total += 3 + len(u.Contents)
+	}
+	vrt.Assert(len(out) == total, "PCO: serialised size = 1 + sum(3 + contents)")
+	vrt.Assert(out[0] == 0x80, "PCO: configuration protocol octet 0x80 first")
+	back := NewProtocolConfigurationOptions()
+	err := back.UnMarshal(out)
+	vrt.Assert(err == nil, "PCO: parsing the serialisation succeeds for every contents length 0..255")
+	vrt.Assert(len(back.ProtocolOrContainerList) == n, "PCO: same number of units (contents of every length)")
+	for i := 0; i < n; i++ {
+		a, b := pco.ProtocolOrContainerList[i], back.ProtocolOrContainerList[i]
+		vrt.Assert(a.ProtocolOrContainerID == b.ProtocolOrContainerID && a.LengthOfContents == b.LengthOfContents, "PCO: identifier and length round-trip (contents of every length)")
+		vrt.Assert(len(b.Contents) == len(a.Contents), "PCO: contents length round-trips")
+		k := int(vrt.U8(fmt.Sprintf("pos%d", i)))
+		if k < len(a.Contents) {
+			vrt.Assert(b.Contents[k] == a.Contents[k], "PCO: contents round-trip at every position")
+		}
+	}
+}
+
 func VH_C16_pco_arbitrary() {
 	hi := 8
 	if vrt.Thorough() {
